@@ -53,9 +53,9 @@ def run(prop, tier, seed, scratch, t0):
              "with junk, too many signatures, bad index maps or valid-but-unmatched, sync messages (empty, current, newer unsigned), "
              "responses for unknown channels / versions / wrong signatures, control messages) plus 14 classes that exist only at a "
              "deeper point (responses of every kind carrying the id of H's proposal in flight; parent updates that withdraw an open "
-             "sub-channel, fund it again, re-fund a settled one or repeat its settlement; sub-channel updates) x 7 life-cycle points "
+             "sub-channel, fund it again, re-fund a settled one or repeat its settlement; sub-channel updates) x 8 life-cycle points "
              "(no channel, open, own update in flight, peer's update at the handler, own proposal in flight, sub-channel open, "
-             "sub-channel settled) x sequences of length 1 (all) and 2 (seeded sample), both "
+             "sub-channel settled, hub of a funded virtual channel with lone / in-time / late settlement and funding proposals) x sequences of length 1 (all) and 2 (seeded sample), both "
              "serializers; each is materialised with real keys, passed through the real encoder+decoder and injected into a real "
              "client in a supervised child process; observables: process panic (with go-perun frame), leftover blocked goroutines, "
              "and an honest probe afterwards (update in each direction / channel opening) that must complete or be refused within "
